@@ -120,16 +120,22 @@ class RunningFailureMonitor(Monitor):
         model = self.run.model
         busy_apps = set(inst.supvisors.starter.get_application_job_names()) | \
             set(inst.supvisors.stopper.get_application_job_names())
-        lost, survivors = {}, {}
+        lost, survivors, ambiguous = {}, {}, set()
         for p in infos:
             app = p['application_name']
             namespec = f"{app}:{p['process_name']}"
             if not model.get(app, {}).get('managed') or namespec not in self.run.procs:
                 continue
-            if p['statecode'] in RUN_CODES + (40,) and p['identifiers']:
+            # NOTE: 'identifiers' is where the process runs; the displayed state may be a forced one (FATAL shown over a
+            #       running process)
+            if p['identifiers']:
                 if p['identifiers'] == [identifier]:
-                    if p['statecode'] in RUN_CODES:
+                    if p['statecode'] != 40:
                         lost.setdefault(app, []).append(namespec)
+                    else:
+                        # a process that was being stopped there: whether it still counts as 'running only there' is
+                        # not said; the application is not judged
+                        ambiguous.add(app)
                 else:
                     survivors.setdefault(app, []).append(namespec)
         previous = self.losses[-1] if self.losses else None
@@ -138,12 +144,13 @@ class RunningFailureMonitor(Monitor):
             for app, names in lost.items():
                 previous['lost'].setdefault(app, []).extend(names)
             previous['survivors'] = survivors
+            previous['busy_apps'] = sorted(set(previous['busy_apps']) | ambiguous)
             previous['lost_instance'] += '+' + w.by_identifier.get(identifier)
             self.count('lost_processes', sum(len(v) for v in lost.values()))
             self.count('losses_merged')
             return
         record = {'t': w.now, 'master': inst.nick, 'inc': inst.inc, 'lost_instance': w.by_identifier.get(identifier),
-                  'state': state, 'lost': lost, 'busy_apps': sorted(busy_apps), 'survivors': survivors,
+                  'state': state, 'lost': lost, 'busy_apps': sorted(busy_apps | ambiguous), 'survivors': survivors,
                   'busy_anything': bool(busy_apps)}
         self.losses.append(record)
         self.count('losses_acknowledged_by_master')
